@@ -214,7 +214,7 @@ def chunk_files(trace_files, outdir, target_events=6000):
     for tf in trace_files:
         for start, run in split_runs(tf):
             # a twin pair (base run, variant run + "twin" marker) must stay in one chunk
-            pair_tail = '-variant"' in run[0]
+            pair_tail = '-variant"' in run[0] or '-aged"' in run[0]
             if n and n + len(run) > target_events and not pair_tail:
                 chunks.append((cur, cur_index))
                 cur, cur_index, n = [], [], 0
